@@ -18,7 +18,7 @@ META = {
     "rule": "group laws: every triple (finite groups; box [-6,6] for U1; [-6,6]^2 pairs in quick / triples in thorough for U1U1) - "
     "non-trivial = triple with at least two non-identity charges; sectors: every array with <=3 (quick) / <=4 (thorough) indices x every "
     "non-empty subset of a 3-charge set per index x every direction pattern x every total charge (reachable ones plus one unreachable) - "
-    "non-trivial = array with >=2 valid sectors and at least one dual index",
+    "sign() with its flag as bool / int / numpy.bool_ in every first-use order from cold memo caches; from_fill_fn / random also with the indices as list and as one-shot generator. non-trivial = array with >=2 valid sectors and at least one dual index",
     "bounds": {
         "quick": {"u1_box": 6, "u1u1": "all pairs + triples over [-2,2]^2", "max_indices": "3 over a 3-charge set, 4 over a 2-charge set"},
         "thorough": {"u1_box": 6, "u1u1": "all triples over [-6,6]^2", "max_indices": 4},
@@ -262,7 +262,18 @@ def sector_failures(sr, sym, idescs, charge, ferm, static, with_fill):
             for s, b in y.blocks.items():
                 if tuple(b.shape) != tuple(dict(d[0])[c] for d, c in zip(idescs, s)):
                     f.append((f"C17/from_fill_fn/{sym}/block-shape", f"{s}"))
+            # the indices handed over as a one-shot iterable (generator) or a list instead of a tuple
+            for form, mk in (("generator", lambda: (make_index(d) for d in idescs)), ("list", lambda: [make_index(d) for d in idescs])):
+                try:
+                    yg = klass.from_fill_fn(lambda shape: np.zeros(shape), mk(), charge=charge, **kw)
+                except TypeError:
+                    continue  # a refusal of the argument form is not a wrong answer
+                if yg.ndim != len(idescs) or set(yg.blocks) != se:
+                    f.append((f"C17/from_fill_fn[indices as {form}]/{sym}/stored-sectors", f"ndim {yg.ndim} sectors {sorted(yg.blocks)[:4]} vs {sorted(se)[:4]} ({len(idescs)} indices)"))
             if len(idescs) <= 2:
+                zg = klass.random((make_index(d) for d in idescs), charge=charge, seed=0, **kw)
+                if zg.ndim != len(idescs) or set(zg.blocks) != se:
+                    f.append((f"C17/random[indices as generator]/{sym}/stored-sectors", f"ndim {zg.ndim} sectors {sorted(zg.blocks)[:4]}"))
                 z = klass.random(tuple(make_index(d) for d in idescs), charge=charge, seed=0, **kw)
                 if set(z.blocks) != se:
                     f.append((f"C17/random/{sym}/stored-sectors", f"{sorted(z.blocks)} vs {sorted(se)}"))
